@@ -1,8 +1,8 @@
 package main
 
 import (
-	"go/types"
 	"go/token"
+	"go/types"
 	"sort"
 	"strings"
 
@@ -12,7 +12,7 @@ import (
 func init() { registry["C12"] = checkC12 }
 
 func checkC12(c *Check) {
-	c.Explanation = "Decided by effect summaries and path analysis on the inventory service: (R1) resource arithmetic (ResourceUnits.Add/Sub and what they call) writes through no pointer reachable from receiver or argument and returns no pointer derived from them (mod/alias summaries with reaching-store analysis for local struct fields); (R2) the status computation has an empty mod-set with respect to the reservation list and node snapshot; (R3) a reservation is appended and positively acknowledged only on the true edge of reservationAllocateable(inventory, free ports, reservations, new reservation built from the committed resources); that predicate subtracts every not-yet-allocated reservation before the new one; reservation processing is re-enabled only after a successful inventory fetch was stored; (R4) the release path removes at most one entry (the removal is followed by leaving the scan) and is the only removal; a miss replies with an error; (R5) the reservation list, node snapshot and free-port counter are written only inside the service's loop function."
+	c.Explanation = "Decided by effect summaries and path analysis on the inventory service: (R1) resource arithmetic (ResourceUnits.Add/Sub and what they call) writes through no pointer reachable from receiver or argument and returns no pointer derived from them (mod/alias summaries with reaching-store analysis for local struct fields); (R2) the status computation has an empty mod-set with respect to the reservation list and node snapshot; (R3) a reservation is appended and positively acknowledged only on the true edge of reservationAllocateable(inventory, free ports, reservations, new reservation built from the committed resources); that predicate subtracts every not-yet-allocated reservation before the new one; reservation processing is re-enabled only after a successful inventory fetch was stored; (R4) the release path removes at most one entry (the removal is followed by leaving the scan) and is the only removal; a miss replies with an error; (R5) the reservation list, node snapshot and free-port counter are written only inside the service's loop function. Borrowers of the reservation list neither store into it nor append to a re-slice of it."
 	c.NotDecided = "that first-fit placement implies feasibility of the real placement; unsigned port arithmetic"
 	l := c.L
 	mc := newModCtx(l)
@@ -57,6 +57,7 @@ func checkC12(c *Check) {
 	rv := l.Func("types", "ResourceValue", "add")
 	c.Ob("R1", "ResourceValue.add is pure", rv.Pos(), len(mc.summary(rv).mut) == 0, "")
 
+	c.borrowedReservationList("R5")
 	// ---- R2 status read-only
 	gs := l.Func("provider/cluster", "inventoryService", "getStatus")
 	c.Analysed(fnName(gs))
@@ -670,7 +671,11 @@ func (c *Check) inventoryClientRules(rule string) {
 	run := l.Func("provider/cluster", "inventoryService", "run")
 	// the service's client-side entry points decide nothing themselves: every return of reserve / unreserve / lookup
 	// has passed the select that talks to the loop (the loop is the only place that knows the reservations)
-	for _, name := range []string{"reserve", "unreserve", "lookup"} {
+	names := []string{"reserve", "unreserve", "lookup"}
+	if c.ID == "C12" {
+		names = append(names, "status") // what is reported is the loop's list at the time of asking, not a kept copy
+	}
+	for _, name := range names {
 		fn := l.Func("provider/cluster", "inventoryService", name)
 		c.Analysed(fnName(fn))
 		okAll := true
@@ -925,5 +930,87 @@ func (c *Check) endpointCountSums(rule string) {
 	}
 	if !decided {
 		c.Info(rule, "reservationCountEndpoints: form of the count not recognised, sum not decided", fn.Pos(), "")
+	}
+}
+
+// borrowedReservationList: the loop function owns the list of outstanding reservations; everything else that is
+// handed the list (metrics, the admission predicate, the status computation) borrows it. A borrower must not store
+// into its elements, and must not append to the list or to a re-slice of it (append writes into the shared backing
+// array whenever capacity allows: the in-place filter idiom `xs[:0]` overwrites the owner's entries).
+func (c *Check) borrowedReservationList(rule string) {
+	l := c.L
+	run := l.Func("provider/cluster", "inventoryService", "run")
+	n := 0
+	owner := map[*ssa.Function]bool{}
+	for _, h := range helpersOf(run) {
+		owner[h] = true // code split off the loop function is still the loop
+	}
+	for _, fn := range l.pkgFuncs("provider/cluster") {
+		if fn == run || fn.Parent() == run {
+			continue
+		}
+		top := fn
+		for top.Parent() != nil {
+			top = top.Parent()
+		}
+		if top == run || owner[top] {
+			continue
+		}
+		for _, p := range fn.Params {
+			sl, ok := p.Type().Underlying().(*types.Slice)
+			if !ok || !strings.HasSuffix(sl.Elem().String(), "cluster.reservation") {
+				continue
+			}
+			n++
+			rooted := map[ssa.Value]bool{p: true}
+			for changed := true; changed; {
+				changed = false
+				eachInstr(fn, func(i ssa.Instruction) {
+					v, isV := i.(ssa.Value)
+					if !isV || rooted[v] {
+						return
+					}
+					switch x := i.(type) {
+					case *ssa.Slice:
+						if rooted[x.X] {
+							rooted[v] = true
+							changed = true
+						}
+					case *ssa.Phi:
+						for _, e := range x.Edges {
+							if rooted[e] {
+								rooted[v] = true
+								changed = true
+							}
+						}
+					case *ssa.Call:
+						if calleeFull(x) == "builtin.append" && len(x.Call.Args) > 0 && rooted[x.Call.Args[0]] {
+							rooted[v] = true
+							changed = true
+						}
+					}
+				})
+			}
+			bad := ""
+			var pos token.Pos = fn.Pos()
+			eachInstr(fn, func(i ssa.Instruction) {
+				switch x := i.(type) {
+				case *ssa.Store:
+					if ia, isIA := x.Addr.(*ssa.IndexAddr); isIA && rooted[ia.X] {
+						bad = "stores into an element of the list it was handed"
+						pos = x.Pos()
+					}
+				case *ssa.Call:
+					if calleeFull(x) == "builtin.append" && len(x.Call.Args) > 0 && rooted[x.Call.Args[0]] {
+						bad = "appends to (a re-slice of) the list it was handed: the append writes into the backing array the service loop still uses"
+						pos = x.Pos()
+					}
+				}
+			})
+			c.Ob(rule, fnName(fn)+" only reads the reservation list it is handed", pos, bad == "", fnName(fn)+" "+bad+": outstanding reservations are overwritten or lost outside the service loop")
+		}
+	}
+	if n < 2 {
+		c.Fail("C12-%s lost instances: %d borrowers of the reservation list", rule, n)
 	}
 }
